@@ -251,7 +251,9 @@ void ThreadPool::runDedicated(std::function<void(void)>& f) {
   auto child    = signals[mi.maxThreads - reserved];
   child->wbegin = 0;
   child->wend   = 0;
-  child->done   = 0;
+  // (wakeup() clears done; clearing it here as well lets a thread that has
+  // not gone to sleep yet start, finish and set done before wakeup() clears
+  // it again -- the loop below then never ends)
   child->wakeup(masterFastmode);
   while (!child->done) {
     asmPause();
